@@ -38,7 +38,9 @@ shielded objects exist, and the listener the user registered has not been garbag
 * `protocols_closed_once`   every protocol's close() runs at most once, in order — exactly once
                             when no close-time handler raises
 * `push_stopped`            after close()/any report no push update reaches the user and
-                            push_updater.start() is blocked
+                            push_updater.start() is blocked — also when an earlier start() failed half-way
+* `blocked_after_connect_completes` a report / close() that arrives while connect() is still awaiting a
+                            later protocol stays final when the remaining protocols finish connecting
 -/
 namespace PyatvModel.Props.C09
 open PyatvModel.C09
@@ -298,12 +300,13 @@ theorem raised_sticky (cfg : Cfg) (evs more : List Ev) (h : (after cfg evs).rais
 
 /-- **C09, protocols are closed at most once**, in registration order, however many times
     close() is called and however many reports arrive; not at all while the device is open;
-    every one of them exactly once unless a user handler raised into the closing loop. -/
+    unless a user handler raised into the closing loop, exactly the protocols that connect() had
+    registered when the device was closed (a prefix `take h` of them) — each once. -/
 theorem protocols_closed_once (cfg : Cfg) (wf : WF cfg) (evs : List Ev) :
     ((after cfg evs).pending = none → (after cfg evs).closeLog = []) ∧
       (after cfg evs).closeLog <+: List.range' 0 cfg.protos.length ∧
       (BenignProtos cfg → (after cfg evs).pending.isSome →
-        (after cfg evs).closeLog = List.range' 0 cfg.protos.length) := by
+        ∃ h, (after cfg evs).closeLog = List.range' 0 (cfg.protos.take h).length) := by
   have h := (inv_after cfg wf evs).1
   refine ⟨fun hp => (h.opened hp).2.1, ?_, ?_⟩
   · cases hp : (after cfg evs).pending with
@@ -333,7 +336,35 @@ theorem push_stopped (cfg : Cfg) (wf : WF cfg) (pre post : List Ev) (e : Ev)
   · have := isBlocking_closed s cfg.nObjs cfg.pushObj hsh wf.push
     simp only [step, this, if_true]
 
+/-- **C09, final also during connect().**  `FacadeAppleTV.connect()` awaits the protocols one
+    after the other; a protocol that is already connected may report, or close() may be called,
+    while a later one is still connecting (`Ev.connectNext` anywhere in `post`): when the
+    remaining protocols have finished connecting, every protected member is still blocked —
+    for any number `connected0` of protocols registered at the start. -/
+theorem blocked_after_connect_completes (cfg : Cfg) (wf : WF cfg) (pre mid post : List Ev) (e : Ev)
+    (he : e.isClosing = true) (m : Row) (hm : rowProtected cfg.nObjs cfg.members m = true)
+    (hx : m.guard ≠ .closeExempt) :
+    apiBlocked cfg (after cfg (pre ++ e :: (mid ++ .connectNext :: post))) m = true :=
+  blocked_after cfg wf pre (mid ++ .connectNext :: post) e he m hm hx
+
+/-- connect() registering a protocol touches neither the shield flags nor the cached set -/
+theorem connectNext_changes_nothing_else (cfg : Cfg) (s : St) :
+    (step cfg s .connectNext).1 = { s with handlers := s.handlers + 1 } := rfl
+
+/-- **C09, push updates stop after a failed start().**  `push_updater.start()` raised half-way
+    (a protocol's own updater failed) — the facade is already the listener of the main updater —
+    then the device is closed or reported lost: no update reaches the user any more. -/
+theorem push_stopped_after_failed_start (cfg : Cfg) (wf : WF cfg) (pre mid post : List Ev) (e : Ev)
+    (he : e.isClosing = true) (i : Nat) (b : Beh) :
+    (step cfg (after cfg (pre ++ .pushStartFault :: (mid ++ e :: post))) (.push i b)).2
+      = .delivered false := by
+  have := (push_stopped cfg wf (pre ++ .pushStartFault :: mid) post e he).2.1 i b
+  simp only [List.append_assoc, List.cons_append] at this
+  rw [this]
+
 /-! ## Non-vacuity and sharpness -/
+
+
 
 /-- a handler that just returns -/
 abbrev ret : Beh := ⟨[], false⟩
@@ -418,7 +449,7 @@ example :
 /-- `BenignProtos` is met by protocols whose close-time handlers do not raise -/
 example : BenignProtos (facadeCfg .alive [⟨[(.closed, ⟨[.api 10, .close], false⟩)], 1⟩, ⟨[], 0⟩]) := by
   intro p hp rb hrb
-  simp [facadeCfg] at hp
+  simp [facadeCfg, facadeCfgC] at hp
   rcases hp with rfl | rfl
   · simp at hrb; rw [hrb]
   · simp at hrb
@@ -439,6 +470,18 @@ example :
 example :
     let cfg := facadeCfg .dead [⟨[], 1⟩]
     (step cfg (after cfg [.report 0 .closed ret]) (.api 10)).2 = .pass := by
+  decide
+
+/-- protocol 0 is connected, 1 and 2 are still connecting: protocol 0 loses its connection (only
+    protocol 0 is closed), the others finish connecting — everything stays blocked; and a start()
+    that failed half-way delivers until the close, not after -/
+example :
+    let cfg := facadeCfgC .alive [⟨[], 1⟩, ⟨[], 1⟩, ⟨[], 0⟩] 1
+    let evs := [Ev.pushStartFault, .push 0 ⟨[], false⟩, .report 0 (.lost 1) ⟨[], false⟩, .connectNext, .connectNext,
+                .api 10, .api 28, .push 0 ⟨[], false⟩, .userClose]
+    outputs cfg (init cfg) evs
+        = [.faulted, .delivered true, .none, .none, .none, .blocked, .blocked, .delivered false, .set 0 2] ∧
+      (after cfg evs).closeLog = [0] := by
   decide
 
 end PyatvModel.Props.C09
